@@ -5,3 +5,4 @@ import Proofs.C12
 import Proofs.C11
 import Proofs.C13
 import Proofs.C15
+import Proofs.C17
